@@ -32,6 +32,7 @@ SEAMS = """malloc calloc realloc free strdup strndup vasprintf asprintf
 fopen fdopen freopen setlocale newlocale duplocale freelocale uselocale strtod strtof strtold atof __isoc99_sscanf __isoc99_fscanf sscanf fscanf
 strtol strtoul atoi
 memcpy memmove memset strcmp strncmp strlen strcpy strncpy strcat memcmp
+snprintf vsnprintf sprintf vsprintf fgets
 __asan_memcpy __asan_memmove __asan_memset qsort lfind bsearch
 strtok rand srand localeconv gmtime localtime ctime asctime getenv setenv putenv
 pthread_mutex_lock pthread_mutex_unlock pthread_mutex_trylock pthread_mutex_init pthread_mutex_destroy
@@ -41,7 +42,7 @@ chdir fesetround""".split()
 # externals that are deterministic, MT-safe and stateless: left real
 ALLOW = set("""asin acos atan atan2 cos sin tan exp log log10 pow sqrt fabs floor ceil fmod cbrt hypot
 exp2 log2 log1p expm1 sinh cosh tanh round trunc lround
-fclose feof ferror fgets fgetc getc ungetc fread fseek ftell rewind fflush clearerr
+fclose feof ferror fgetc getc ungetc fread fseek ftell rewind fflush clearerr
 strerror strchr strrchr strstr strspn strcspn strpbrk strnlen
 __ctype_b_loc __ctype_tolower_loc __ctype_toupper_loc tolower toupper isalpha isdigit
 __errno_location stderr stdout stdin abs labs
